@@ -266,6 +266,135 @@ fn fixed_programs() -> Vec<(Program, Vec<String>)> {
         },
         vec!["a".to_string(), "b".to_string()],
     ));
+    // an interrupt-vector installation whose source register is only known on the finished
+    // graph: the other way to it ends in an exit ecall / is unreachable code
+    v.push((
+        Program {
+            stmts: vec![
+                label("main"),
+                la(T0, "handler"),
+                inst(Inst::Branch(BOp::Beq, A0, ZERO, "install".into())),
+                li(T0, 0),
+                li(A7, 10),
+                ecall(),
+                label("install"),
+                csrw(T0),
+                li(A7, 10),
+                ecall(),
+                label("handler"),
+                addi(T1, T1, 1),
+                pseudo("uret", Inst::Jalr(0, 1, 0)),
+            ],
+        },
+        vec!["handler".to_string()],
+    ));
+    v.push((
+        Program {
+            stmts: vec![
+                label("main"),
+                la(T0, "handler"),
+                j("install"),
+                li(T0, 0),
+                label("install"),
+                csrw(T0),
+                li(A7, 10),
+                ecall(),
+                label("handler"),
+                addi(T1, T1, 1),
+                pseudo("uret", Inst::Jalr(0, 1, 0)),
+            ],
+        },
+        vec!["handler".to_string()],
+    ));
+    // the opposite: an address that only reaches an installation past an exit ecall
+    v.push((
+        Program {
+            stmts: vec![
+                label("main"),
+                la(T0, "h1"),
+                csrw(T0),
+                la(T0, "h2"),
+                li(A7, 10),
+                ecall(),
+                label("h1"),
+                csrw(T0),
+                pseudo("uret", Inst::Jalr(0, 1, 0)),
+                label("h2"),
+                addi(T1, T1, 1),
+                pseudo("uret", Inst::Jalr(0, 1, 0)),
+            ],
+        },
+        vec!["h1".to_string()],
+    ));
+    // places where sharing starts: a function's own return that is merged into a shared exit
+    // is no way into the shared code
+    v.push((
+        Program {
+            stmts: vec![
+                label("main"),
+                call("f"),
+                call("g"),
+                li(A7, 10),
+                ecall(),
+                label("f"),
+                inst(Inst::Branch(BOp::Beq, A0, ZERO, "g".into())),
+                li(A0, 7),
+                ret(),
+                label("g"),
+                addi(A0, A0, 1),
+                ret(),
+            ],
+        },
+        vec!["f".to_string(), "g".to_string()],
+    ));
+    // ... and neither is unreachable code: behind a jump (an exit-ecall pair), and a chain
+    // of unreachable blocks that stand in the file in reverse order
+    v.push((
+        Program {
+            stmts: vec![
+                label("main"),
+                call("f"),
+                call("g"),
+                li(A7, 10),
+                ecall(),
+                label("f"),
+                addi(A0, A0, 1),
+                label("g"),
+                addi(A0, A0, 2),
+                j("mid"),
+                li(A7, 10),
+                ecall(),
+                label("mid"),
+                addi(A0, A0, 3),
+                ret(),
+            ],
+        },
+        vec!["f".to_string(), "g".to_string()],
+    ));
+    v.push((
+        Program {
+            stmts: vec![
+                label("main"),
+                call("f"),
+                call("g"),
+                li(A7, 10),
+                ecall(),
+                label("back"),
+                addi(T0, T0, 4),
+                j("mid"),
+                label("f"),
+                addi(A0, A0, 1),
+                label("g"),
+                addi(A0, A0, 2),
+                label("mid"),
+                addi(A0, A0, 3),
+                ret(),
+                label("dead"),
+                j("back"),
+            ],
+        },
+        vec!["f".to_string(), "g".to_string()],
+    ));
     v
 }
 
@@ -520,6 +649,32 @@ pub fn check_functions(
         });
         if !ok {
             return Some(("sharing-report-names-uninvolved-label".into(), format!("'{text}'")));
+        }
+    }
+    // ... and at the places where it starts: a shared instruction that is a function's entry
+    // or that control enters from code fewer functions own. A return that was merged into the
+    // exit is an artefact of the one-exit form, and code nothing reaches enters nowhere.
+    let live: Vec<Rc<CfgNode>> = nodes.first().map(reachable).unwrap_or_default();
+    let is_live = |n: &Rc<CfgNode>| !n.functions().is_empty() || live.iter().any(|x| Rc::ptr_eq(x, n));
+    for n in nodes.iter() {
+        if n.functions().len() < 2 {
+            continue;
+        }
+        let starts = n.is_function_entry()
+            || n.prevs().iter().any(|p| is_live(p) && !is_rewritten_return(p) && p.functions().len() < n.functions().len());
+        // the instruction behind an entry node is designated by the entry's labels
+        let behind_entry = n.prevs().iter().any(|p| p.is_function_entry());
+        let designated = diags.iter().filter(|d| d.code == "node-in-many-functions").any(|r| {
+            let text: String = src.chars().skip(r.start_raw).take(r.end_raw.saturating_sub(r.start_raw)).collect();
+            let name = text.trim_end_matches(':').trim().to_string();
+            n.labels().iter().any(|l| l.get().as_str() == name)
+                || (n.node().range().start().raw_index() == r.start_raw && n.node().range().end().raw_index() == r.end_raw)
+        });
+        if designated && !starts && !behind_entry {
+            return Some(("sharing-reported-at-a-place-where-none-starts".into(), node_desc(cfg, n)));
+        }
+        if starts && !designated && !n.is_function_entry() && !behind_entry {
+            return Some(("place-where-sharing-starts-not-reported".into(), node_desc(cfg, n)));
         }
     }
     let _ = im;
